@@ -239,9 +239,11 @@ theorem filter_clientPairs (st : Struct) (hn : (st.map (·.spec.calias)).Nodup) 
 
 /-! ### text → value -/
 
-/-- the float parser agrees with the client's float formatter on the float texts of a value -/
+/-- the float parser agrees with the client's float formatter on the float texts of a value: parsed
+    with the bit size of the field it stands in, a text comes back as the same (canonical) text -/
 def FloatOK (floatConv : Nat → Bytes → Option Bytes) (st : Struct) : Prop :=
-  ∀ f ∈ st, ∀ t, Val.float t ∈ f.vals → t ≠ [] ∧ t.contains 44 = false ∧ ∀ bits, floatConv bits t = some t
+  ∀ f ∈ st, ∀ t, Val.float t ∈ f.vals → t ≠ [] ∧ t.contains 44 = false ∧
+    ∀ bits, f.spec.kind = .float bits → floatConv bits t = some t
 
 theorem formatNat_ne_nil (n : Nat) : formatNat n ≠ [] := (formatNat_spec n).1
 
@@ -255,7 +257,7 @@ theorem formatBool_ne_nil (v : Bool) : formatBool v ≠ [] := by cases v <;> dec
 /-- one element: "" ↦ zero, otherwise the converter; both give the value back -/
 theorem decode_text (floatConv : Nat → Bytes → Option Bytes) (fz : Bytes) (k : Kind) (v : Val)
     (hfit : v.fits k = true)
-    (hfl : ∀ t, v = .float t → t ≠ [] ∧ ∀ bits, floatConv bits t = some t) :
+    (hfl : ∀ t, v = .float t → t ≠ [] ∧ ∀ bits, k = .float bits → floatConv bits t = some t) :
     (if (textOf v).isEmpty then some (zeroOf fz k) else convert floatConv k (textOf v)) = some v := by
   cases v with
   | str s =>
@@ -279,12 +281,13 @@ theorem decode_text (floatConv : Nat → Bytes → Option Bytes) (fz : Bytes) (k
     simp [textOf, this, convert, parseBool_formatBool']
   | float t =>
     cases k <;> simp [Val.fits] at hfit
+    rename_i bits
     obtain ⟨h1, h2⟩ := hfl t rfl
-    simp [textOf, h1, convert, h2]
+    simp [textOf, h1, convert, h2 bits rfl]
 
 theorem decodeSlice_texts (floatConv : Nat → Bytes → Option Bytes) (fz : Bytes) (k : Kind) (vs : List Val)
     (hfit : ∀ v ∈ vs, v.fits k = true)
-    (hfl : ∀ t, Val.float t ∈ vs → t ≠ [] ∧ ∀ bits, floatConv bits t = some t) :
+    (hfl : ∀ t, Val.float t ∈ vs → t ≠ [] ∧ ∀ bits, k = .float bits → floatConv bits t = some t) :
     decodeSlice (convert floatConv k) (zeroOf fz k) (vs.map textOf) = some vs := by
   induction vs with
   | nil => simp [decodeSlice]
@@ -721,7 +724,7 @@ theorem bind_clientPairs_gen (floatConv : Nat → Bytes → Option Bytes) (fz : 
     unfold Field.wellTyped at hty
     simp only [Bool.and_eq_true, Bool.or_eq_true, beq_iff_eq, List.all_eq_true] at hty
     obtain ⟨hshape, hfits⟩ := hty
-    have hfl : ∀ t, Val.float t ∈ f.vals → t ≠ [] ∧ ∀ bits, floatConv bits t = some t :=
+    have hfl : ∀ t, Val.float t ∈ f.vals → t ≠ [] ∧ ∀ bits, f.spec.kind = .float bits → floatConv bits t = some t :=
       fun t ht => ⟨(hfloat f hf t ht).1, (hfloat f hf t ht).2.2⟩
     unfold decodeField
     rw [hlook]
